@@ -10,7 +10,7 @@ import z3
 
 from .front import ClassInfo, FuncInfo, World
 from .tys import (NONE, SV, PyList, PyTuple, Ref, TAbs, TAny, TBool, TDict, TEnum, TInt, TNone, TObj, TOpt, TRec,
-                  TSeq, TSet, TStr, TTuple, TUnion, Ty, VBuiltin, VClass, VExc, VFunc, VGen, VLambda, VModule,
+                  TSeq, TSet, TSlice, TStr, TTuple, TUnion, Ty, VBuiltin, VClass, VExc, VFunc, VGen, VLambda, VModule,
                   VRange, VSlice)
 
 
@@ -123,15 +123,29 @@ class Interp:
         self.trace_sites: list = []
         self.prove_timeout_ms = 10000
         self.binder_stack: list = []
+        self.pure_ctx: list = []
         self.alive_pre = self.alive
 
     # ------------------------------------------------------------------ basics
     def fresh(self, base: str, sort):
+        """A fresh symbol; under binders of purely evaluated code it is a Skolem function of them."""
+        name = f"{base}!{next(self.counter)}"
+        if self.pure_ctx:
+            consts = [c for cs, _ in self.pure_ctx for c in cs]
+            f = z3.Function(name, *[c.sort() for c in consts], sort)
+            return f(*consts)
+        return z3.Const(name, sort)
+
+    def bound(self, base: str, sort):
+        """A fresh constant that is going to be bound by a quantifier / lambda."""
         return z3.Const(f"{base}!{next(self.counter)}", sort)
 
-    def fresh_sv(self, base: str, ty: Ty) -> SV:
+    def fresh_sv(self, base: str, ty: Ty):
         if ty is TNone:
             return NONE
+        if ty is TSlice:
+            o = TOpt(TInt)
+            return VSlice(SV(o, self.fresh(base + "_start", o.sort())), SV(o, self.fresh(base + "_stop", o.sort())), SV(o, self.fresh(base + "_step", o.sort())))
         return SV(ty, self.fresh(base, ty.sort()))
 
     def assume(self, f):
@@ -200,6 +214,23 @@ class Interp:
         # afterwards the goal may be assumed on this path
         self.assume(goal)
         return ob
+
+    def oblige_pure(self, name, cond, site=None):
+        """Obligation raised while evaluating real code purely (e.g. a comprehension element on a
+        generic index): quantified over the enclosing binders."""
+        consts, guards = [], []
+        for (cs, g) in self.pure_ctx:
+            consts += cs
+            guards.append(g)
+        goal = z3.Implies(z3.And(guards), cond) if guards else cond
+        if consts:
+            goal = z3.ForAll(consts, goal)
+        saved = self.binder_stack
+        self.binder_stack = []
+        try:
+            self.oblige(name, goal, "safety", site=site)
+        finally:
+            self.binder_stack = saved
 
     def cls_id(self, qname: str) -> int:
         if qname not in self.cls_ids:
@@ -590,7 +621,7 @@ class Interp:
                     return z3.BoolVal(False)
             if self.eq_is_structural(ta.elem) and ta.elem == tb.elem:
                 return a.term == b.term
-            i = self.fresh("eqi", z3.IntSort())
+            i = self.bound("eqi", z3.IntSort())
             ea = SV(ta.elem, a.term[i])
             eb = SV(tb.elem, b.term[i])
             return z3.And(z3.Length(a.term) == z3.Length(b.term),
@@ -604,7 +635,7 @@ class Interp:
         if isinstance(ta, TObj) and isinstance(tb, TObj):
             return self.obj_eq(a, b, fr)
         if isinstance(ta, TDict) and isinstance(tb, TDict) and ta.k == tb.k and ta.v == tb.v and self.eq_is_structural(ta.v):
-            k = self.fresh("eqk", ta.k.sort())
+            k = self.bound("eqk", ta.k.sort())
             return z3.And(ta.dom(a.term) == tb.dom(b.term),
                           z3.ForAll([k], z3.Implies(z3.Select(ta.dom(a.term), k), z3.Select(ta.val(a.term), k) == z3.Select(tb.val(b.term), k))))
         if isinstance(ta, TSet) and isinstance(tb, TSet) and ta == tb:
